@@ -8,7 +8,8 @@ forked process of its own,
 The marker stage turns the inputs listed in `bad` into NotCompleted results.
 
 argv: JSON {"jobs": [{"n": int, "k": int, "bad": [i, ...], "mode1": "w"|"a", "store": "dir"|"sqlite",
-                      "idfn": bool, "pre": int}, ...]}
+                      "idfn": bool, "pre": int, "names": [str, ...] (optional), "suffix": str (optional)}, ...]}
+   names: the identifiers of the n inputs (default s00, s01, ...); suffix: file suffix of inputs and records (default fasta)
    idfn: inputs are named sNN_raw.fasta and apply_to gets a user id_from_source mapping them to sNN
    pre : number of records an EARLIER run had already completed in both stores
 stdout: one JSON line per job."""
@@ -40,9 +41,10 @@ class marker:
             os._exit(77)
         COUNT[0] += 1
         src = os.path.basename(str(seqs.info.source)).replace("_raw", "")
+        src = src.rsplit(".", 1)[0]
         with open(self.log, "a") as f:
             f.write(src + "\n")
-        if src.split(".")[0] in self.bad:
+        if src in self.bad:
             return NotCompleted("FAIL", "marker", "scripted failure", source=seqs)
         return seqs
 
@@ -56,9 +58,9 @@ def idfn(src):
     return name.split("_")[0]
 
 
-def apply(indir, outpath, mode, kill_at, log, bad, use_idfn):
-    ins = open_data_store(indir, suffix="fasta", mode="r")
-    kw = {} if outpath.endswith(".sqlitedb") else {"suffix": "fasta"}
+def apply(indir, outpath, mode, kill_at, log, bad, use_idfn, suffix="fasta"):
+    ins = open_data_store(indir, suffix=suffix, mode="r")
+    kw = {} if outpath.endswith(".sqlitedb") else {"suffix": suffix}
     out = open_data_store(outpath, mode=mode, **kw)
     loader = get_app("load_unaligned", format="fasta", moltype="dna")
     writer = get_app("write_seqs", out, format="fasta")
@@ -142,43 +144,71 @@ def read_log(p):
     return open(p).read().split() if os.path.exists(p) else []
 
 
-def make_inputs(d, n, use_idfn):
+def make_inputs(d, names, use_idfn, suffix):
     os.makedirs(d)
-    for i in range(n):
-        with open(os.path.join(d, f"s{i:02d}{'_raw' if use_idfn else ''}.fasta"), "w") as f:
+    for i, name in enumerate(names):
+        with open(os.path.join(d, f"{name}{'_raw' if use_idfn else ''}.{suffix}"), "w") as f:
             f.write(f">a\nACGT{'A' * i}\n>b\nGGCC{'T' * i}\n")
+
+
+def stamps(path):
+    """identity of every COMPLETED record as stored: a record that is written again gets a different stamp
+    (directory store: inode + mtime in ns of the member file; sqlite store: rowid + log id of the row)"""
+    st = {}
+    if path.endswith(".sqlitedb"):
+        if not os.path.exists(path):
+            return st
+        db = sqlite3.connect(path)
+        try:
+            for rowid, rid_, log_id, done in db.execute("SELECT rowid, record_id, log_id, is_completed FROM results"):
+                if done:
+                    st.setdefault(str(rid_), []).append([rowid, log_id])
+        finally:
+            db.close()
+        return st
+    if os.path.isdir(path):
+        for fn in os.listdir(path):
+            p = os.path.join(path, fn)
+            if os.path.isfile(p):
+                x = os.stat(p)
+                st[fn] = [[x.st_ino, x.st_mtime_ns]]
+    return st
 
 
 def one(job):
     n, k, bad, mode1, store, use_idfn, pre = job["n"], job["k"], job.get("bad", []), job.get("mode1", "a"), \
         job.get("store", "dir"), job.get("idfn", False), job.get("pre", 0)
-    bad = [f"s{i:02d}" for i in bad]
+    names = job.get("names") or [f"s{i:02d}" for i in range(n)]
+    suffix = job.get("suffix", "fasta")
+    bad = [names[i] for i in bad]
     base = tempfile.mkdtemp(prefix="c19r_")
     try:
         ind = os.path.join(base, "in")
-        make_inputs(ind, n, use_idfn)
+        make_inputs(ind, names, use_idfn, suffix)
         ext = ".sqlitedb" if store == "sqlite" else ""
         ref, out = os.path.join(base, "ref" + ext), os.path.join(base, "out" + ext)
         L = lambda name: os.path.join(base, name)  # noqa: E731
         res = dict(job=job, machinery_error=None)
         # uninterrupted reference (after the same earlier partial run, if any)
         if pre:
-            forked(apply, ind, ref, mode1, pre, L("ref0.log"), bad, use_idfn)
-        rc, err = forked(apply, ind, ref, "a" if pre else mode1, -1, L("ref.log"), bad, use_idfn)
+            forked(apply, ind, ref, mode1, pre, L("ref0.log"), bad, use_idfn, suffix)
+        rc, err = forked(apply, ind, ref, "a" if pre else mode1, -1, L("ref.log"), bad, use_idfn, suffix)
         if rc != 0:
             res["machinery_error"] = f"uninterrupted run failed rc={rc}: {err}"
             return res
         if pre:
-            forked(apply, ind, out, mode1, pre, L("out0.log"), bad, use_idfn)
-        rc1, err1 = forked(apply, ind, out, "a" if pre else mode1, k, L("out1.log"), bad, use_idfn)
+            forked(apply, ind, out, mode1, pre, L("out0.log"), bad, use_idfn, suffix)
+        rc1, err1 = forked(apply, ind, out, "a" if pre else mode1, k, L("out1.log"), bad, use_idfn, suffix)
         if rc1 not in (0, 77):
             res["machinery_error"] = f"interrupted run failed rc={rc1}: {err1}"
             return res
         after_kill = snapshot(out)
-        rc2, err2 = forked(apply, ind, out, "a", -1, L("out2.log"), bad, use_idfn)
+        stamps_before = stamps(out)
+        time.sleep(0.002)    # a rewrite within the same timer tick must still change the mtime
+        rc2, err2 = forked(apply, ind, out, "a", -1, L("out2.log"), bad, use_idfn, suffix)
         res.update(killed=(rc1 == 77), after_kill=sorted(after_kill), first_run=read_log(L("out1.log")),
                    processed_resume=read_log(L("out2.log")), order=read_log(L("ref0.log")) + read_log(L("ref.log")),
-                   final=snapshot(out), uninterrupted=snapshot(ref),
+                   final=snapshot(out), uninterrupted=snapshot(ref), stamps_before=stamps_before, stamps_after=stamps(out),
                    resume_error=(None if rc2 == 0 else f"rc={rc2}: {err2}"))
         return res
     finally:
